@@ -14,6 +14,7 @@ CONSTANTS
   ForcedWaits = FALSE
   LifoQueue = FALSE
   DrainOnlyAtStop = FALSE
+  ErrKeepsPolling = FALSE
 SPECIFICATION Spec
 VIEW View
 INVARIANTS C07_Fifo C07_AllAccounted C01_DrainReleases
